@@ -4,6 +4,7 @@ import (
 	"context"
 	"encoding/json"
 	"fmt"
+	"os"
 	"path/filepath"
 	"sort"
 	"time"
@@ -85,6 +86,12 @@ func checkTOCImage(r *vf.Run, c caseSpec, img *imageSrc, e *storeEnv, timg *imag
 				ok = false
 			}
 			if err := repoMounts(r, c, img.Layers[cl.j], cl.blob, ann, tb, d); err != nil {
+				if dump := os.Getenv("VERIF_C19_DUMP"); dump != "" {
+					_ = os.WriteFile(filepath.Join(dump, "layer.blob"), cl.blob, 0o644)
+					_ = os.WriteFile(filepath.Join(dump, "toc.json"), js, 0o644)
+					_ = os.WriteFile(filepath.Join(dump, "source.blob"), img.Layers[cl.j].Blob, 0o644)
+					_ = os.WriteFile(filepath.Join(dump, "error.txt"), []byte(err.Error()), 0o644)
+				}
 				r.Violate("toc-image:mapped-toc-does-not-mount-and-verify:"+c.Kind, "the snapshotter's readers do not mount and verify the layer with the TOC blob the TOC image maps it to: "+errClass(err),
 					rp(lname, map[string]any{"layer_toc_digest_annotation": ann}))
 				ok = false
@@ -117,6 +124,7 @@ func keysOf(m map[string][]ocispec.Descriptor) []string {
 // the repo's functions say "No conversion. No need to return an error here."
 
 func directStage(r *vf.Run) {
+	useScratchTmp(r)
 	ctx, cancel := context.WithTimeout(context.Background(), 5*time.Minute)
 	defer cancel()
 	nonLayer := []string{
